@@ -57,9 +57,12 @@ def apply (s : Store) : StoreOp → Option (Store × Bool)
 
 end Mgmt
 
-/-- index and list agree, no rule twice -/
+/-- index and list agree, no rule twice: every listed rule is indexed at its slot, and every
+    indexed key is the key of the rule listed at that slot -/
 def Coh (s : Store) : Prop :=
-  s.policy.Nodup ∧ ∀ r i, s.index.get (ruleKey r) = some i ↔ s.policy[i]? = some r
+  s.policy.Nodup ∧
+  (∀ r i, s.policy[i]? = some r → s.index.get (ruleKey r) = some i) ∧
+  (∀ k i, s.index.get k = some i → ∃ r, s.policy[i]? = some r ∧ ruleKey r = k)
 
 /-- the rules mentioned by an operation -/
 def StoreOp.rules : StoreOp → List Rule
